@@ -209,6 +209,10 @@ func (api *API) checkArrayMustOccur(slice reflect.Value, ts TypeSettings) error 
 		// Get the type prefix of the element by retrieving the type settings.
 		if elemValue.Kind() == reflect.Ptr || elemValue.Kind() == reflect.Interface {
 			elemValue = reflect.Indirect(elemValue.Elem())
+			if !elemValue.IsValid() {
+				// a nil pointer or interface element has no type prefix (and can't be serialized either)
+				return ierrors.Errorf("unexpected nil element at index %d; needed to check Must Occur rules", i)
+			}
 		}
 
 		elemTypeSettings, exists := api.typeSettingsRegistry.GetByType(elemValue.Type())
